@@ -242,6 +242,50 @@ harness! {
     }
 }
 
+// The boundary of the same check, phrased so that the symbolic executor can prune the in-range path:
+// the record id IS the declared total (one symbolic 32-bit value feeds both), hence `id >= total`
+// simplifies to true before OrderingSender::send is ever encoded.  MEASURED: still > 600 s (the pruning
+// does not happen through the async state machine), so this stays a disabled experiment.
+harness! {
+    #[kani::unwind(10)]
+    fn x13_send_record_equal_to_total_is_refused() {
+        use std::future::Future;
+        use std::pin::pin;
+        use std::task::{Context, Poll, Waker};
+        use crate::ff::Fp31;
+        use crate::helpers::{ChannelId, Role};
+        use crate::protocol::{Gate, RecordId};
+        let t: u32 = kani::any();
+        kani::assume(t >= 1);
+        let total = match NonZeroUsize::new(t as usize) {
+            Some(n) => n,
+            None => {
+                kani::assume(false);
+                unreachable!()
+            }
+        };
+        let one = NonZeroUsize::new(1).unwrap();
+        let tx = OrderingSender::new(NonZeroUsize::new(4).unwrap(), one, one);
+        let sender = GatewaySender::<Role>::new(ChannelId { peer: Role::H2, gate: Gate::default() }, tx, TotalRecords::Specified(total));
+        let msg = crate::verif_kani::c08_prime::mk31(3);
+        let waker = Waker::noop();
+        let mut cx = Context::from_waker(&waker);
+        let mut fut = pin!(sender.send::<Fp31, Fp31>(RecordId::from(t), msg));
+        match fut.as_mut().poll(&mut cx) {
+            Poll::Ready(Err(e)) => {
+                match &e {
+                    Error::TooManyRecords { record_id, .. } => assert!(*record_id == RecordId::from(t), "the error names the offending record"),
+                    _ => assert!(false, "TooManyRecords is the error"),
+                }
+                std::mem::forget(e);
+                kani::cover!(t == 1);
+                kani::cover!(t > 1_000_000);
+            }
+            _ => assert!(false, "record id == declared total must be refused"),
+        }
+    }
+}
+
 // native replay slot (cargo kani playback): the driver points IPA_VERIF_REPLAY_DIR at a directory
 // holding one file per hook; the generated test calls the harness by its path relative to this module.
 #[cfg(test)]
